@@ -70,3 +70,54 @@ def deepcopy(h):
             'and r._fcalls[0] == fcalls[0] and r.nDim == 2 and r.nPop == 2', **e)
     h.check('copy-rebuilds-its-objective-around-its-own-counter', 'r._live is False', **e)
     h.check('original-unchanged', 'same(s.population, pop) and seq_eq(pop[0], m0) and seq_eq(pop[1], m1) and same(s._fcalls, fcalls)', **e)
+
+
+@contract('C06/Step/state-dumped-at-STOP', ['C06'], A + '.Step', native=False)
+def stop_dump(h):
+    """the restart file a solver writes when it stops (forced dump in Step) holds the solver exactly as Step leaves it:
+    whatever Finalize() does to the solver (Powell's Finalize adds a step-monitor record; here an ABSTRACT Finalize that
+    marks the solver not-live and may add a record) has been done before the dump, so a solver restored from that file
+    continues like the stopped solver itself"""
+    if not h.is_sym():
+        h.unsupported('symbolic only')
+    from contracts.solver_step import _mk
+    s, stepmon, fc, epoch = _mk(h)
+    h.set_field(s, '_state', 'restart.pkl')
+    adds = h.choice('finalize_adds_a_monitor_record', [False, True])
+    dumps = []
+
+    def mon_len(I):
+        from pyvc.values import SV
+        return SV(I.st.heap[I.st.heap[I.st.heap[s]['_stepmon']]['_x']]['len'], 'int')
+
+    def save(I, c, args, kwargs):
+        cell = I.st.heap[s]
+        dumps.append((cell['_live'], mon_len(I), I.st.heap[cell['_fcalls']][0]))
+        return None
+
+    def finalize(I, c, args, kwargs):
+        st = I.st
+        st.heap[s]['_live'] = False
+        if adds:
+            mon = st.heap[s]['_stepmon']
+            for f in ('_x', '_y'):
+                lst = st.heap[mon][f]
+                cc = dict(st.heap[lst])
+                cc['len'] = cc['len'] + 1
+                st.heap[lst] = cc
+        return None
+    h.set_summaries({('mystic/abstract_solver.py', 'AbstractSolver.SaveSolver'): save,
+                     ('mystic/abstract_solver.py', 'AbstractSolver.Finalize'): finalize})
+    r = h.call(h.getattr(s, 'Step'))
+    begun = epoch.get('begun', 0)
+    n1 = h.len(h.field(stepmon, '_x'))
+    e1 = h.ev('f[0]', f=h.field(s, '_fcalls'))
+    live1 = h.field(s, '_live')
+    h.cover('stopped-after-a-step', 'r is not None and begun == 1', r=r, begun=begun)
+    if begun == 1:
+        h.check('a-step-that-stops-the-solver-dumps-its-state', 'implies(r is not None, nd >= 1)', r=r, nd=len(dumps))
+    if dumps:
+        dl, dn, de = dumps[-1]
+        h.check('the-dumped-solver-is-finalized-like-the-solver-Step-leaves', 'dl is live1', dl=dl, live1=live1)
+        h.check('the-dumped-solver-has-every-monitor-record-and-evaluation-of-the-solver-Step-leaves', 'dn == n1 and de == e1',
+                dn=dn, n1=n1, de=de, e1=e1)
